@@ -8,7 +8,7 @@
 
    A file's content is the list of blocks written to it.  The source oracle
    (`source`, `zsource`) says for each read whether it yields a block, the end of the data
-   or an I/O error; `honest_source P` / `honest_z P`: absent an error the blocks are P in
+   or an I/O error (and whether the final flush at close succeeds); `honest_source P` / `honest_z P`: absent an error the blocks are P in
    order (and content-length gives the right count).  A crash is `firstn k` of the
    effects; an I/O error is an exception (the partial file is still closed). *)
 From Coq Require Import ZArith List Bool.
@@ -36,6 +36,7 @@ Theorem C19_retry_repairs : forall path P l (d : dir) src len,
   Forall (fun ck => exists s, fst ck = CDownload path s /\ honest_source P s) l ->
   s_get src = true -> s_status src = true -> s_length src = Some len ->
   Z.to_nat (download_num_blocks len download_block_size) = length P -> s_reads src = map Some P ->
+  s_close src = true ->
   exists evs d', one_call (after d l) (CDownload path src) None = (evs, d', Returned) /\
     lookup streqb d' path = Some (Whole P).
 Proof. exact retry_download. Qed.
@@ -55,7 +56,7 @@ Proof. exact decompress_prefix_good. Qed.
 Theorem C19_decompress_retry_repairs : forall dpath P l (d : dir) z,
   (lookup streqb d dpath = None \/ lookup streqb d dpath = Some (Whole P)) ->
   Forall (fun ck => exists s, fst ck = CDecompress dpath s /\ honest_z P s) l ->
-  z_open z = true -> z_chunks z = map Some P ->
+  z_open z = true -> z_chunks z = map Some P -> z_close z = true ->
   exists evs d', one_call (after d l) (CDecompress dpath z) None = (evs, d', Returned) /\
     lookup streqb d' dpath = Some (Whole P).
 Proof. exact retry_decompress. Qed.
@@ -91,15 +92,17 @@ Theorem C19_block_count : forall {A} (payload : list A) (bs : Z), 1 <= bs ->
   concat (chunks (Z.to_nat bs) payload) = payload.
 Proof. exact @block_count. Qed.
 
-(* non-vacuity: 2 blocks + 1 byte; an I/O error in read 1, a crash inside write 1, then success,
+(* non-vacuity: 2 blocks + 1 byte; an I/O error in read 1, a crash inside write 1, an I/O error on the
+   final flush, then success,
    then a call whose source would fail if consulted *)
 Example C19_example :
-  let good := KDownload true true (Some 524289) [Some 262144; Some 262144; Some 1] in
-  let c := mkC19 [(KDownload true true (Some 524289) [Some 262144; None], None); (good, Some 8%nat);
-                  (good, None); (KDownload false false None [], None)] in
+  let good := KDownload true true (Some 524289) [Some 262144; Some 262144; Some 1] true in
+  let c := mkC19 [(KDownload true true (Some 524289) [Some 262144; None] true, None); (good, Some 8%nat);
+                  (KDownload true true (Some 524289) [Some 262144; Some 262144; Some 1] false, None);
+                  (good, None); (KDownload false false None [] false, None)] in
   map (fun r => (outcome_code (snd r), option_map (fun _ => 0) (lookup streqb (snd (fst r)) the_path)))
       (calls (initial_dir c) (map (fun ck => (to_call (fst ck), snd ck)) (k_calls c)))
-  = [(1, None); (2, None); (0, Some 0); (0, Some 0)] /\
+  = [(1, None); (2, None); (1, None); (0, Some 0); (0, Some 0)] /\
   download_num_blocks 524289 download_block_size = 3.
 Proof. vm_compute. split; reflexivity. Qed.
 
